@@ -74,13 +74,13 @@ def run(tier, seed, t0):
     nbatch = len(scn)
     # closes that cross on the wire (the client's Close has been written when the server's Close - and the
     # CloseOk answering the client's - come in together), for the connection and for one channel
-    for fam in ("connclose_cross", "chclose_cross"):
+    for fam in ("connclose_cross", "chclose_cross", "reply_then_close"):
         for x in scenarios.generate(fam, 100 if tier == "quick" else 1500, seed):
             x.update(order=[fam], base="session", ch0op="close")
             scn.append(x)
     files, summ = vlib.run_sessions(PROP, scn, tier, hang_ms=5000 if tier == "quick" else 20000)
     consumed, bad = vlib.validate_traces("ConnTrace", "ConnTrace.cfg", files, timeout=3000, xmx="4g")
-    v = vlib.Verdict(PROP, own_kinds=("batch", "connclose-cross", "chclose-cross"))
+    v = vlib.Verdict(PROP, own_kinds=("batch", "connclose-cross", "chclose-cross", "connclose-slowcaller"))
     v.absorb(bad)
     realised, total, sizes = batch_stats(files)
     if total == 0 or realised * 2 < total:
